@@ -279,6 +279,11 @@ def run_circuit(case):
                 H = c.transfer(*case['transfer'])
                 out['transfer'] = gq(H(j * w))
                 out['transfer_s'] = gq(H, sub)
+                try:
+                    # which route produced it: the ladder-network shortcut or the generic test-source analysis
+                    out['transfer_ladder'] = c._ladder(*case['transfer']) is not None
+                except Exception:
+                    out['transfer_ladder'] = False
             except Exception as e:
                 out['transfer'] = {'error': type(e).__name__ + ': ' + str(e)[:150]}
         res['ac'][ws] = out
